@@ -190,9 +190,21 @@ def _run_uniq_hkl(desc):
     ops = [np.asarray(o, float) for o in grp.group]
     rng = range(-3, 4)
     hkls = np.array([(h, k, l) for h in rng for k in rng for l in rng], float).T      # 3 x 343
+    hk0 = hkls.copy()
     ref = sym_u.find_uniq_hkls(hkls, grp)
+    if not np.array_equal(hkls, hk0):
+        sh.violation("%s:find_uniq_hkls-overwrites-the-caller's-list" % name, {"kind": "uniq_hkl", "group": name, "input": "float64 3xn array"},
+                     {"columns_changed": int((hkls != hk0).any(axis=0).sum())})
+        hkls = hk0.copy()
+    # the same list as integers and as a C-ordered float array: same answer
+    for alt, what in ((hk0.astype(int), "int array"), (np.ascontiguousarray(hk0), "contiguous float64 array")):
+        keep = alt.copy()
+        ra = sym_u.find_uniq_hkls(alt, grp)
+        if np.abs(np.asarray(ra, float) - ref).max() > 1e-9 or not np.array_equal(alt, keep):
+            sh.violation("%s:find_uniq_hkls-depends-on-the-array-type-or-overwrites-it" % name, {"kind": "uniq_hkl", "group": name, "input": what},
+                         {"input_changed": not np.array_equal(alt, keep)})
     for k, o in enumerate(ops):
-        moved = np.dot(o, hkls)
+        moved = np.dot(o, hk0)
         r = sym_u.find_uniq_hkls(moved, grp)
         bad = np.abs(r - ref).max(axis=0) > 1e-9
         if bad.any():
@@ -285,7 +297,7 @@ def _run_uniqlist(desc):
         t0, tfar = np.array([10.0, -20.0, 5.0]), np.array([10.0, 480.0, 5.0])
         members = [(ubi, t0, "A"), (np.dot(ops[k1], ubi), t0 + 1.0, "A"), (np.dot(ops[k2], ubi), t0 - 1.0, "A"), (ubi2, t0, "B"),
                    (np.dot(ops[k1], ubi2), t0 + 0.5, "B"), (np.dot(ops[k2], ubi), tfar, "C")]
-        for order in itertools.permutations(range(len(members))):
+        for oi, order in enumerate(itertools.permutations(range(len(members)))):
             with contextlib.redirect_stdout(io.StringIO()):
                 ul = gip.uniq_grain_list(name, 10.0, 1.0)
                 seen = []
@@ -303,6 +315,24 @@ def _run_uniqlist(desc):
                     if sum(g.nfound for g in ul.uniqgrains) != len(members):
                         sh.violation("%s:uniq_grain_list:times-found-do-not-add-up" % name, {"kind": "uniqlist", "group": name, "cell": cell, "order": list(order)},
                                      {"nfound": [int(g.nfound) for g in ul.uniqgrains]})
+                # the same six grains arriving in BATCHES (one add() call with several grains - the output of one grid point - or the
+                # constructor's grains= argument): the collector ends with the same three entries
+                if not sh.violations and oi % 6 == 0:            # every sixth order (120 of 720)
+                    gl = [grain.grain(members[m][0].copy(), translation=members[m][1].copy()) for m in order]
+                    for split in ((6,), (3, 3), (1, 2, 3), (2, 4), "constructor"):
+                        if split == "constructor":
+                            ul = gip.uniq_grain_list(name, 10.0, 1.0, grains=gl)
+                        else:
+                            ul = gip.uniq_grain_list(name, 10.0, 1.0)
+                            at = 0
+                            for nb in split:
+                                ul.add(gl[at:at + nb]); at += nb
+                        if len(ul.uniqgrains) != 3 or sum(g.nfound for g in ul.uniqgrains) != len(members):
+                            sh.violation("%s:uniq_grain_list:batched-insertion-differs" % name,
+                                         {"kind": "uniqlist", "group": name, "cell": cell, "order": list(order), "batches": split if split == "constructor" else list(split)},
+                                         {"entries": len(ul.uniqgrains), "distinct_grains_added": 3, "nfound": [int(g.nfound) for g in ul.uniqgrains]})
+                            break
+                        sh.states += 1
             sh.evaluations += 1
             sh.states += 1
             if len(ops) > 1:
